@@ -155,11 +155,26 @@ fn pct(t: &mut Tape, p: u32) -> bool {
     p > 0 && t.rare(p, 100)
 }
 
+/// Capture locations of a passed step, as the definition's regex would have left them. The
+/// definition is one of five shapes (chosen by the text): flat groups, groups nested inside a
+/// group that goes on after them, groups nested down to a common end, adjacent groups with
+/// unmatched text behind them, an inner group ending strictly before its outer one plus an
+/// optional group - the reporters highlight the captures and have to cope with all of them.
 pub fn caploc(text: &str) -> regex::CaptureLocations {
     thread_local! {
-        static RE: regex::Regex = regex::Regex::new(r"^(\S+)(?: (.*))?$").unwrap();
+        static RES: Vec<regex::Regex> = [
+            r"^(\S+)(?: (.*))?$",
+            r"(?s)^((\S+)(\s+\S+)?)(.*)$",
+            r"(?s)^(\S+(\s+(\S+))?)(\s.*)?$",
+            r"(?s)^(\S)(\S*)",
+            r"(?s)^((\S)(\S*))((\s+)(\S+))?",
+        ]
+        .iter()
+        .map(|r| regex::Regex::new(r).unwrap())
+        .collect();
     }
-    RE.with(|re| {
+    RES.with(|res| {
+        let re = &res[(crate::tape::hash_str(text) % res.len() as u64) as usize];
         let mut l = re.capture_locations();
         let _ = re.captures_read(&mut l, text);
         l
@@ -645,15 +660,34 @@ pub fn linearise_full(pick: &mut dyn FnMut(usize) -> usize, tree: &Tree, seq: bo
                     false
                 }
             });
-            let open_rule = acts.iter().copied().find(|a| match a {
-                Act::Sc(fi, Some(ri), _) | Act::RFin(fi, ri) => st[*fi].rules[*ri].0 && !st[*fi].rules[*ri].1,
-                _ => false,
-            });
-            let open_feat = acts.iter().copied().find(|a| match a {
-                Act::Sc(fi, ..) | Act::RStart(fi, _) | Act::RFin(fi, _) | Act::FFin(fi) => st[*fi].started && !st[*fi].finished,
-                _ => false,
-            });
-            open_attempt.or(open_rule).or(open_feat).unwrap_or_else(|| acts[pick(acts.len())])
+            // Sequential order keeps an open attempt, then the open rule, then the open feature
+            // going - but *which* of the open entity's items comes next is free: between two
+            // attempts of a scenario its siblings (or, at feature level, a whole rule) may run.
+            let open_rule: Vec<Act> = acts
+                .iter()
+                .copied()
+                .filter(|a| match a {
+                    Act::Sc(fi, Some(ri), _) | Act::RFin(fi, ri) => st[*fi].rules[*ri].0 && !st[*fi].rules[*ri].1,
+                    _ => false,
+                })
+                .collect();
+            let open_feat: Vec<Act> = acts
+                .iter()
+                .copied()
+                .filter(|a| match a {
+                    Act::Sc(fi, ..) | Act::RStart(fi, _) | Act::RFin(fi, _) | Act::FFin(fi) => st[*fi].started && !st[*fi].finished,
+                    _ => false,
+                })
+                .collect();
+            if let Some(a) = open_attempt {
+                a
+            } else if !open_rule.is_empty() {
+                open_rule[pick(open_rule.len())]
+            } else if !open_feat.is_empty() {
+                open_feat[pick(open_feat.len())]
+            } else {
+                acts[pick(acts.len())]
+            }
         } else {
             acts[pick(acts.len())]
         };
